@@ -68,6 +68,14 @@ CLAIMED = {
           'The window models of bytes=, BytesIO (byte-offset arithmetic), bitarray= and filename=/file handle are evaluated against the implementation for all windows over 0-3-byte sources; tobytes/bytes()/.bytes/tofile (BytesIO and real file), chunked writing and Array tobytes/tofile/fromfile are oracle-checked. Thorough writes 100 MiB + 13 bits into a hashing sink.'),
     note='PARTIAL proof: tofile_eq_tobytes for all chunk sizes is not yet proved (exercised by cut(n)+tobytes cases and the 100 MiB run). Trusted: a file is its bytes; an empty file cannot be memory-mapped (excluded).',
     technique='Coq proof (window arithmetic) + vm_compute correspondence + oracle', design='§5 C17'),
+ 'C04': dict(
+    text=('Coq heap model (objects -> stores with the advisory immutable flag, string cache with arbitrary eviction) whose transitions are the store-flow of every derivation route as read from the code. '
+          'Proved: the invariant "a mutable object\'s store is unflagged, in no cache entry and referenced by no other object" holds initially and is preserved by every transition, hence over all histories; '
+          'the value of any object that is not itself the target of a mutation is unchanged by any history (isolation, with an arbitrary mutation function f); Bits/ConstBitStream values never change at all. '
+          'Each run replays random histories (create by 13 routes, derive by 22, mutate by 15 + external bytearray/bitarray/array/tobitarray) on the implementation, re-reads every object after every step, '
+          'and compares the sharing graph (which objects hold the same BitStore) and all values with the model.'),
+    note='Trusted: the per-route store-flow table is hand-modelled and tied by the sharing-graph correspondence; identity is observed via id(o._bitstore) in the harness only. Five sharing defects of the pinned tree were repaired (known_findings.json).',
+    technique='Coq proof (heap invariant by induction over histories) + sharing-graph correspondence', design='§5 C04'),
 }
 
 def main():
